@@ -8,6 +8,7 @@ import SqlLineage.IO.Config
 import SqlLineage.IO.Graph
 import SqlLineage.IO.Sql
 import SqlLineage.IO.PathSec
+import SqlLineage.IO.Chain
 
 open Lean
 
@@ -23,7 +24,8 @@ def handlers : List (String × (Json → Except String Json)) := [
   ("dispatch", SqlLineage.IO.Sql.handleDispatch),
   ("path", SqlLineage.IO.PathSec.handleOne),
   ("pathbatch", SqlLineage.IO.PathSec.handleBatch),
-  ("pathlib", SqlLineage.IO.PathSec.handlePathlib)
+  ("pathlib", SqlLineage.IO.PathSec.handlePathlib),
+  ("chain", SqlLineage.IO.Chain.handleChain)
 ]
 
 def handleLine (line : String) : String :=
